@@ -1,9 +1,14 @@
 """Per-property configuration of the driver: test function, budgets, evidence texts."""
 
+HOOK_COMMITS = []
+
 CHECKS = {
     "C18": {
         "test": "TestVerif_C18",
         "level": "exploration",
+        "technique": "property-based testing (rapid): algebraic laws + float64 reference oracle over generated vector pairs/triples",
+        "level_text": "Generated-input search: 20 000 (quick) / 3.2 million (thorough) generated vector triples are checked against the metric laws and a float64 reference with float32-accumulation tolerances; no exhaustiveness, the floats are sampled.",
+        "level_note": "Trusts the Go toolchain, rapid and float64 arithmetic as reference; tolerances assume float32 accumulation in index order.",
         "quick": {"checks": 20000, "shards": 1, "timeout": 600},
         "thorough": {"checks": 200000, "shards": 16, "timeout": 3000},
         "rule": "rapid draws (dim 1..512 weighted to small, three component flavours incl. magnitudes 1e-6..1e6, "
